@@ -349,7 +349,8 @@ PROPS = {
     },
     'C12': {
         'props_file': 'props/C12.v',
-        'domains': [{'name': 'conc-one', 'ok_is_spec': True, 'quick': 400, 'thorough': 20000, 'thorough_shards': 10, 'race': 150, 'race_thorough': 3000}],
+        'domains': [{'name': 'conc-one', 'ok_is_spec': True, 'quick': 400, 'thorough': 20000, 'thorough_shards': 10, 'race': 150, 'race_thorough': 3000},
+                    {'name': 'conc-steer', 'ok_is_spec': True, 'quick': 600, 'thorough': 30000, 'thorough_shards': 10}],
         'spec_ops': ['linearizable', 'no-crash'],
         'corr': 'corr.conc (CorrConc.check_conc): linearizability of observed concurrent histories w.r.t. the extracted sequential location model (depth-first search over real-time-respecting orders, final memory and storage included) + race-detector runs of the same harness',
         'rule': 'conc-one: 2-3 client goroutines, 2-4 operations each (AddFact on 3 shared ids, RemFact, GetFact, SearchFacts, AddRule/RemRule on 3 shared rule ids, some rules with an expiration, FindRules dispatch) on one location (either state kind), '
